@@ -41,10 +41,12 @@ class Interp(Exec, Joins, Exprs, Subs, Calls, Methods, Assume):
         if os.environ.get('SA_ISDIGITS_FIX'):
             pat = pat.replace('$', '\\Z')
         self.isdigits_lang = RegexLang(pat, 0, self.B)
+        self.iban_error = None
         try:
             self.iban_structs = self.derive_iban()
-        except Exception:
+        except Exception as e:
             self.iban_structs = None
+            self.iban_error = 'iban._struct_to_re() / iban.dat could not be summarised: %r' % (e,)
         keys = self.B.cls_of_chars(''.join(self.charmap))
         self.charmap_keys = keys
         img = {}
@@ -58,45 +60,83 @@ class Interp(Exec, Joins, Exprs, Subs, Calls, Methods, Assume):
         return frozenset(self.charmap_img.get(b, b) for b in cls)
 
     def derive_charmap(self):
-        t = self.prog.mods['stdnum.util'].tree
-        for n in ast.walk(t):
-            if isinstance(n, ast.Call) and isinstance(n.func, ast.Name) and n.func.id == '_mk_char_map':
-                table = ast.literal_eval(n.args[0])
-                out = {}
-                for names, tgt in table.items():
-                    for nm in names.split(','):
-                        out[unicodedata.lookup(nm)] = tgt
-                return out
-        raise RuntimeError('look-alike table not found')
+        # the look-alike table as derived (and shape-checked) by the C14 rules: one reading of util.py for both
+        from ..props import c14
+        return c14.charmap()
 
     def derive_iban(self):
-        """country code -> per-position classes of the BBAN, from iban.dat and the conversion table
-        in iban._struct_to_re (both read as data; summary used only when the function has the
-        expected shape: '^%s$' % _struct_re.sub(conv, structure))."""
+        """country code -> per-position classes of the BBAN.  iban.dat is read as data; for every registered structure the
+        pattern that iban._struct_to_re() builds is obtained by evaluating that function's expressions with the whitelisted
+        evaluator (re.compile(p) stands for p, _struct_re.sub(conv, s) applies the nested conv() to every match), so any
+        spelling of the conversion that the evaluator can follow gives the same table."""
         import re as _re, os
-        from ..common import src as _src
+        from ..minieval import ev, Undecidable
         m = self.prog.mods['stdnum.iban']
         fn = m.funcs['_struct_to_re']
         struct_pat = ast.literal_eval(m.assign_nodes['_struct_re'].args[0])
-        table = None
-        for n in ast.walk(fn):
-            if isinstance(n, ast.Dict) and all(isinstance(k, ast.Constant) for k in n.keys):
-                table = {k.value: v.value for k, v in zip(n.keys, n.values) if isinstance(v, ast.Constant)}
-        ret = [n for n in ast.walk(fn) if isinstance(n, ast.Return) and n.value is not None and not any(n is x for f in ast.walk(fn) if isinstance(f, ast.FunctionDef) and f is not fn for x in ast.walk(f))]
-        if table is None or not ret or _src(ret[-1].value) != "re.compile('^%s$' % _struct_re.sub(conv, structure))":
-            return None
-        conv = [n for n in ast.walk(fn) if isinstance(n, ast.FunctionDef) and n.name == 'conv']
-        if not conv or "'%s{%s}' % (chars, match.group(1))" not in _src(conv[0]) or 'match.group(2)' not in _src(conv[0]):
-            return None
-        cls = {}
-        for k, pat in table.items():
-            lang = RegexLang('^' + pat + '$', 0, self.B)
-            if not lang.ok or len(lang.alts) != 1 or len(lang.alts[0].items) != 1:
-                return None
-            cls[k] = lang.alts[0].items[0].cls
+        sre = _re.compile(struct_pat)
+        consts = {}
+        for st in m.tree.body:
+            if isinstance(st, ast.Assign) and len(st.targets) == 1 and isinstance(st.targets[0], ast.Name):
+                try:
+                    consts[st.targets[0].id] = ast.literal_eval(st.value)
+                except (ValueError, SyntaxError):
+                    pass
+        inner = {n.name: n for n in fn.body if isinstance(n, ast.FunctionDef)}
+        param = fn.args.args[0].arg
+
+        def run(body, env, hooks):
+            for st in body:
+                if isinstance(st, ast.Expr) and isinstance(st.value, ast.Constant):
+                    continue
+                if isinstance(st, ast.FunctionDef):
+                    continue
+                if isinstance(st, ast.Assign) and len(st.targets) == 1 and isinstance(st.targets[0], ast.Name):
+                    env[st.targets[0].id] = ev(st.value, env, hooks)
+                elif isinstance(st, ast.Return) and st.value is not None:
+                    return ev(st.value, env, hooks)
+                else:
+                    raise Undecidable('statement %s' % type(st).__name__)
+            raise Undecidable('no return')
+
+        def pattern_for(structure):
+            def call_inner(name):
+                f = inner[name]
+                return lambda mm: run(f.body, dict(consts, **{f.args.args[0].arg: mm}), {})
+            # evaluate the outer body; the one call the evaluator does not know is rewritten by hand
+            env = dict(consts)
+            env[param] = structure
+            for st in fn.body:
+                if isinstance(st, ast.Return) and st.value is not None:
+                    node = st.value
+                    # re.compile(<pattern expr>[, flags])
+                    if isinstance(node, ast.Call) and ast.unparse(node.func) == 're.compile' and node.args:
+                        if len(node.args) > 1 or node.keywords:
+                            raise Undecidable('flags')
+                        node = node.args[0]
+                    subs = [c for c in ast.walk(node) if isinstance(c, ast.Call) and isinstance(c.func, ast.Attribute) and c.func.attr == 'sub'
+                            and ast.unparse(c.func.value) == '_struct_re' and len(c.args) == 2 and isinstance(c.args[0], ast.Name) and c.args[0].id in inner]
+                    if len(subs) != 1 or ast.unparse(subs[0].args[1]) != param:
+                        raise Undecidable('shape of the substitution')
+                    conv = call_inner(subs[0].args[0].id)
+                    rebuilt = sre.sub(lambda mm: conv(mm), structure)
+                    # replace the call node by a name bound to the rebuilt text
+                    import copy
+                    node2 = copy.deepcopy(node)
+                    for par in ast.walk(node2):
+                        for f_, v_ in ast.iter_fields(par):
+                            if isinstance(v_, list):
+                                for i_, x_ in enumerate(v_):
+                                    if isinstance(x_, ast.Call) and ast.dump(x_) == ast.dump(subs[0]):
+                                        v_[i_] = ast.Name(id='__rebuilt', ctx=ast.Load())
+                            elif isinstance(v_, ast.Call) and ast.dump(v_) == ast.dump(subs[0]):
+                                setattr(par, f_, ast.Name(id='__rebuilt', ctx=ast.Load()))
+                    if isinstance(node2, ast.Call) and ast.dump(node2) == ast.dump(subs[0]):
+                        return rebuilt
+                    return ev(node2, dict(env, __rebuilt=rebuilt), {})
+            raise Undecidable('no return')
         out = {}
         path = os.path.join(self.prog.repo, 'stdnum', 'iban.dat')
-        sre = _re.compile(struct_pat)
         for line in open(path, encoding='utf-8'):
             if line[0] == '#' or not line.strip() or line[0] == ' ':
                 continue
@@ -104,14 +144,17 @@ class Interp(Exec, Joins, Exprs, Subs, Calls, Methods, Assume):
             mb = _re.search(r'bban="([^"]*)"', line)
             if not mb or not _re.match(r'^(?:%s)+$' % struct_pat, mb.group(1)):
                 continue
-            pos = []
-            for mm in sre.finditer(mb.group(1)):
-                if mm.group(2) not in cls:
-                    pos = None
-                    break
-                pos.extend([cls[mm.group(2)]] * int(mm.group(1)))
-            if pos is not None:
-                out[cc] = pos
+            try:
+                pat = pattern_for(mb.group(1))
+            except Undecidable as e:
+                self.iban_error = '_struct_to_re() cannot be followed by the evaluator: %s' % e
+                return None
+            lang = RegexLang(pat, 0, self.B) if isinstance(pat, str) else None
+            if lang is None or not lang.ok or len(lang.alts) != 1 or lang.anch_end is None or not lang.anch_start \
+                    or not all(it.fixed() and it.lo == 1 for it in lang.alts[0].items):
+                self.iban_error = 'the pattern %r built for structure %r is not a fixed sequence of character classes' % (pat, mb.group(1))
+                return None
+            out[cc] = [it.cls for it in lang.alts[0].items]
         return out
 
     def derive_isdigits_pattern(self):
